@@ -224,20 +224,25 @@ theorem renderVarItems_length (items : List (SVarDecl Ã— Gap)) : items.length â‰
     simp only [renderVarItems, SVarDecl.toks, List.length_append, List.length_cons]
     omega
 
-/-- `CSSVariablesDeclaration.cssText = tokens` on the tokens of a spelled block -/
-theorem varsDecl_block (O : Oracle) (b : SVarBlock) (h : b.WF O) : varsDecl O b.toks = some b.parsed := by
-  have hlen : b.items.length + b.last.toList.length + 1 â‰¤ b.toks.length + 1 := by
-    have h1 := renderVarItems_length b.items
-    simp only [SVarBlock.toks, List.length_append]
-    cases hl : b.last with
-    | none => simp; omega
-    | some d =>
-      simp only [renderLastVar, SVarDecl.toks, List.length_cons, Option.toList_some, List.length_nil]; omega
-  unfold varsDecl
-  rw [show varsLoop O (b.toks.length + 1) [] b.toks =
-    varsLoop O (b.toks.length + 1) [] (Gap.toks b.lead ++ (renderVarItems b.items ++ renderLastVar b.last)) from rfl,
-    varsLoop_items O b.last h.last b.items h.items _ (gapL_toks b.lead) _ [] hlen]
+theorem SVarBlock.fuel_bound (b : SVarBlock) : b.items.length + b.last.toList.length + 1 â‰¤ b.toks.length + 1 := by
+  have h1 := renderVarItems_length b.items
+  simp only [SVarBlock.toks, List.length_append]
+  cases hl : b.last with
+  | none => simp; omega
+  | some d =>
+    simp only [renderLastVar, SVarDecl.toks, List.length_cons, Option.toList_some, List.length_nil]; omega
+
+/-- the loop on the tokens of a spelled block, with any fuel from one unit per declaration + 1 on -/
+theorem varsLoop_block (O : Oracle) (b : SVarBlock) (h : b.WF O) (f : Nat)
+    (hf : b.items.length + b.last.toList.length + 1 â‰¤ f) : varsLoop O f [] b.toks = some b.parsed := by
+  rw [show varsLoop O f [] b.toks =
+    varsLoop O f [] (Gap.toks b.lead ++ (renderVarItems b.items ++ renderLastVar b.last)) from rfl,
+    varsLoop_items O b.last h.last b.items h.items _ (gapL_toks b.lead) _ [] hf]
   rfl
+
+/-- `CSSVariablesDeclaration.cssText = tokens` on the tokens of a spelled block -/
+theorem varsDecl_block (O : Oracle) (b : SVarBlock) (h : b.WF O) : varsDecl O b.toks = some b.parsed :=
+  varsLoop_block O b h _ b.fuel_bound
 
 theorem projVar_parsed (O : Oracle) (d : SVarDecl) (h : d.WF O) : projVar d.parsed = d.erase := by
   simp only [projVar, SVarDecl.erase, SVarDecl.parsed_name O d h]
